@@ -201,6 +201,7 @@ impl Actor for SA {
         let owner = self.owner;
         let cancel: Box<dyn FnOnce() + Send> =
             Box::new(move || ev(EvK::Cancelled { actor: idx, hook: Hook::OnRun, inv: 0 }));
+        let free = self.spec.on_run.get(self.run_inv as usize).map(|h| h.free).unwrap_or(false);
         Controlled::new(
             owner,
             false,
@@ -213,7 +214,7 @@ impl Actor for SA {
                 self.log.push(format!("run{inv}"));
                 let hs = match self.spec.on_run.get(inv as usize) {
                     Some(h) => h.clone(),
-                    None => HookSpec { entry_yield: false, steps: vec![], out: Outcome::OkFalse },
+                    None => HookSpec { entry_yield: false, steps: vec![], out: Outcome::OkFalse, free: false },
                 };
                 {
                     let mut cx = Cx {
@@ -240,6 +241,7 @@ impl Actor for SA {
                 }
             }),
         )
+        .free(free)
         .await
     }
 
@@ -629,6 +631,11 @@ async fn exec(cx: &mut Cx<'_>, st: &Step) {
                 std::hint::spin_loop();
             }
         }
+        Step::WaitSig(i) => {
+            let n = msched::sig(*i);
+            n.notified().await;
+        }
+        Step::Signal(i) => msched::sig(*i).notify_one(),
         Step::Mark(k) => {
             let actor = match cx.who {
                 Who::Actor(a) | Who::Task(a) => Some(a),
@@ -1444,13 +1451,10 @@ async fn controller(scn: Arc<Scenario>, chooser: &mut dyn Chooser) -> (Vec<StepR
     });
     let mut client_tasks = Vec::new();
     for (i, (p, slots)) in scn.clients.iter().cloned().zip(client_slots).enumerate() {
-        client_tasks.push(tokio::spawn(Controlled::new(
-            i,
-            true,
-            None,
-            None,
-            Box::pin(client_main(i, p, slots)),
-        )));
+        let free = p.free;
+        client_tasks.push(tokio::spawn(
+            Controlled::new(i, true, None, None, Box::pin(client_main(i, p, slots))).free(free),
+        ));
     }
 
     let quiet = scn.has_tag("quiet");
